@@ -27,6 +27,14 @@ EXTRA = {
             ("SafeC.moveBwdAlign_ok", "SafeC.Proofs.MemMove", "lemma", "backward alignment prologue: tsp = sp % 8 is non-zero when it is chosen (bit-level lemma or_xor_mod8)"),
             ("SafeC.wordsFwd_ok", "SafeC.Proofs.MemMove", "lemma", "8-byte word loop, ascending, induction on the word count"),
             ("SafeC.wordsBwd_ok", "SafeC.Proofs.MemMove", "lemma", "8-byte word loop, descending")],
+    "C20": [("SafeC.Alloc.exec_bind", "SafeC.Proofs.Alloc", "meta", "exec of a sequential composition = exec of the parts (every Prog of the allocation machine)"),
+            ("SafeC.Alloc.exec_mono", "SafeC.Proofs.Alloc", "meta", "request, failure and handler counters never decrease; a cleared dest stays cleared"),
+            ("SafeC.Alloc.engine_spec", "SafeC.Proofs.Alloc", "lemma", "every run of the printf engine over any list of format pieces (induction): returns with live blocks unchanged, or is the %ls conversion-failure leak, or the unchecked format-copy null dereference"),
+            ("SafeC.Alloc.reorderLoop_wp", "SafeC.Proofs.AllocNorm", "lemma", "loop invariant of wcsnorm_reorder_s (live = seq_ext ++ entry blocks) over any mark pattern: repaired code under every oracle, code as it is when no request fails"),
+            ("SafeC.Alloc.composeLoop_wp", "SafeC.Proofs.AllocNorm", "lemma", "the same for wcsnorm_compose_s over any (mark?, composed?) pattern"),
+            ("SafeC.Alloc.keeps_reorderLoop", "SafeC.Proofs.AllocTight", "lemma", "unrepaired reorder loop, any mark pattern, any oracle: no surviving run contains a failed request"),
+            ("SafeC.Alloc.keeps_composeLoop", "SafeC.Proofs.AllocTight", "lemma", "the same for the compose loop"),
+            ("SafeC.Alloc.normProg_wp", "SafeC.Proofs.AllocNorm", "lemma", "wcsnorm_s: scratch buffer + reorder + compose composed")],
     "C08": [("SafeC.nullSlack_ok", "SafeC.Lemmas", "lemma", "both slack strategies (memset > 0x20, byte loop) zero the whole tail")],
     "C18": [("SafeC.setPrologue_ok", "SafeC.Proofs.MemSet", "lemma", "mem_prim_set alignment prologue: k <= count bytes stored, stops aligned or exhausted"),
             ("SafeC.setBlocks_ok", "SafeC.Proofs.MemSet", "lemma", "mem_prim_set 16-way unrolled body, induction on the block count: q*128 bytes"),
